@@ -619,6 +619,8 @@ func TestC10(t *testing.T) {
 		concurrentHistory(run, rng, h)
 	}
 	digestMode.Store(0)
+	unificationScenarios(run)
+	run.Require("unification_scenarios_judged", 3)
 	filterDifferential(run, rng)
 	throughStack(run, rng)
 	run.Count("settles_that_found_background_unification_pending", settlesThatWaited.Load())
@@ -628,4 +630,132 @@ func TestC10(t *testing.T) {
 	run.Require("filter_queries", 1000)
 	run.Require("stack_discovery_rounds_compared", int64(rep.Pick(20, 200)))
 	run.Finish(t)
+}
+
+// unificationScenarios: listings that carry digests, which is what makes the unifier fold
+// differently named listings into one catalogue model. Three small histories (two tags of one
+// blob on one endpoint; the endpoint that contributed a name / a digest leaves) are judged by the
+// letter of the property: a name is attributed to an endpoint - in the lookup, in the catalogue
+// (as native name or alias of a model that has the endpoint among its sources), in
+// IsModelAvailable - iff that endpoint's latest listing contains it.
+func unificationScenarios(run *rep.Run) {
+	ctx := context.Background()
+	type listing struct {
+		ep    int
+		names []string
+		dig   []string // "" = no digest
+	}
+	scen := []struct {
+		name  string
+		steps []listing
+	}{
+		{"two-tags-of-one-blob-on-one-endpoint", []listing{{0, []string{"llama3:latest", "llama3:8b"}, []string{"sha256:aaaa1111", "sha256:aaaa1111"}}}},
+		{"endpoint-that-contributed-a-name-leaves", []listing{{0, []string{"llama3:latest"}, []string{"sha256:bbbb2222"}}, {1, []string{"llama3:8b"}, []string{"sha256:bbbb2222"}}, {1, []string{}, nil}}},
+		{"endpoint-that-contributed-a-digest-leaves", []listing{{0, []string{"mistral"}, []string{""}}, {1, []string{"mistral"}, []string{"sha256:cccc3333"}}, {1, []string{}, nil}, {2, []string{"zephyr"}, []string{"sha256:cccc3333"}}}},
+	}
+	epURL := []string{"http://10.2.0.1:11434", "http://10.2.0.2:11434", "http://10.2.0.3:11434"}
+	for _, sc := range scen {
+		r := newRegistry(true)
+		u := r.(unifiedReg)
+		for i, e := range epURL {
+			u.RegisterEndpoint(&domain.Endpoint{Name: fmt.Sprintf("s%d", i), URLString: e, Type: "ollama"})
+		}
+		last := map[string]map[string]bool{}
+		allNames := map[string]bool{}
+		for _, st := range sc.steps {
+			var ms []*domain.ModelInfo
+			for k, n := range st.names {
+				m := &domain.ModelInfo{Name: n, LastSeen: time.Now()}
+				if st.dig[k] != "" {
+					d := st.dig[k]
+					m.Details = &domain.ModelDetails{Digest: &d}
+				}
+				ms = append(ms, m)
+				allNames[n] = true
+			}
+			if err := r.RegisterModels(ctx, epURL[st.ep], ms); err != nil {
+				run.Inconclusive("scenario listing rejected: " + err.Error())
+			}
+			last[epURL[st.ep]] = setOf(st.names)
+			settle(ctx, r)
+		}
+		run.Count("unification_scenarios_judged", 1)
+		run.Eval("unification-scenario/" + sc.name)
+		cat, _ := u.GetUnifiedModels(ctx)
+		wit := map[string]any{"scenario": sc.name, "steps": sc.steps}
+		for n := range allNames {
+			var want []string
+			for _, e := range epURL {
+				if last[e][n] {
+					want = append(want, e)
+				}
+			}
+			got, _ := r.GetEndpointsForModel(ctx, n)
+			sort.Strings(got)
+			if strings.Join(got, ",") != strings.Join(want, ",") {
+				run.Violation("C10/unification/"+sc.name+"/model-to-endpoints", fmt.Sprintf("GetEndpointsForModel(%q) = %v; endpoints whose latest listing contains it: %v", n, got, want), wit)
+			}
+			if av := r.IsModelAvailable(ctx, n); av != (len(want) > 0) {
+				run.Violation("C10/unification/"+sc.name+"/is-model-available", fmt.Sprintf("IsModelAvailable(%q) = %v; endpoints whose latest listing contains it: %v", n, av, want), wit)
+			}
+			attributed := map[string]bool{}
+			for _, m := range cat {
+				named := false
+				for _, a := range m.Aliases {
+					if a.Name == n {
+						named = true
+					}
+				}
+				for _, s := range m.SourceEndpoints {
+					if s.NativeName == n {
+						named = true
+					}
+				}
+				if named {
+					for _, s := range m.SourceEndpoints {
+						attributed[s.EndpointURL] = true
+					}
+				}
+			}
+			// and the catalogue entry can be fetched under that name (GET /olla/models/{name})
+			if g, ok := r.(interface {
+				GetUnifiedModel(context.Context, string) (*domain.UnifiedModel, error)
+			}); ok && len(want) > 0 {
+				m, _ := g.GetUnifiedModel(ctx, n)
+				for _, e := range want {
+					found := false
+					if m != nil {
+						for _, s := range m.SourceEndpoints {
+							if s.EndpointURL == e {
+								found = true
+							}
+						}
+					}
+					if !found {
+						run.Violation("C10/unification/"+sc.name+"/catalogue-entry-not-found-by-listed-name", fmt.Sprintf("%s lists %q, but the catalogue has no entry under that name with %s among its sources", e, n, e), wit)
+					}
+				}
+			}
+			for _, e := range epURL {
+				if last[e][n] && !attributed[e] {
+					run.Violation("C10/unification/"+sc.name+"/catalogue-lacks-listed-name", fmt.Sprintf("%s lists %q, but no catalogue model that names %q has %s among its sources", e, n, n, e), wit)
+				}
+				if !last[e][n] && attributed[e] && len(want) == 0 {
+					run.Violation("C10/unification/"+sc.name+"/catalogue-attributes-unlisted-name", fmt.Sprintf("no endpoint lists %q any more, yet the catalogue attributes it to %s", n, e), wit)
+				}
+			}
+		}
+		// no catalogue model may join endpoints through a digest nobody lists any more
+		if sc.name == "endpoint-that-contributed-a-digest-leaves" {
+			for _, m := range cat {
+				has := map[string]bool{}
+				for _, s := range m.SourceEndpoints {
+					has[s.EndpointURL] = true
+				}
+				if has[epURL[0]] && has[epURL[2]] {
+					run.Violation("C10/unification/"+sc.name+"/unrelated-listings-joined", "the listing 'mistral' (no digest) of one endpoint and 'zephyr' of another were made one catalogue model through the digest of an endpoint that no longer lists anything", wit)
+				}
+			}
+		}
+	}
 }
